@@ -24,6 +24,7 @@ pub fn generate(seed: u64, tier: &str, out: &mut dyn std::io::Write) {
         let mut results = Vec::new();
         for j in 0..k {
             let mut dest = RecDest::new(vec![], 0);
+            t.wait_parked();
             match w.dump(&mut dest) {
                 Ok(img) => {
                     let p = format!("{}/w{}-{}-{}.img", dir, seed, i, j);
@@ -40,6 +41,7 @@ pub fn generate(seed: u64, tier: &str, out: &mut dyn std::io::Write) {
         // the reference: a freshly configured writer, same moment
         let mut fw = writer_for(&t, &cfg);
         let mut dest = RecDest::new(vec![], 0);
+        t.wait_parked();
         let (fres, fimg) = match fw.dump(&mut dest) {
             Ok(img) => {
                 let p = format!("{}/w{}-{}-fresh.img", dir, seed, i);
